@@ -204,7 +204,23 @@ func runC14(vals []int, keepLog bool) (*sim.World, map[string]int) {
 	if d := diff(norm(summarizeKinds(a)), norm(summarizeKinds(co))); d != "" {
 		w.Fail("C14", fmt.Sprintf("behaviour depends on how the injected clock relates to the data it is given: only the clock shifted by %s, same calls: %s", delta, d), "clock-only-shift-changes-behaviour")
 	}
+	// ... and wherever the inputs leave the timestamp of an own proposal to the clock in both runs (the previous block's
+	// timestamp plus the increment is not ahead of it), it moves by exactly the offset
+	ownCmp := 0
+	for i := 0; i < len(a.OwnTs) && i < len(co.OwnTs); i++ {
+		x, y := a.OwnTs[i], co.OwnTs[i]
+		if x.H != y.H || x.V != y.V || !x.ClockWin || !y.ClockWin {
+			continue
+		}
+		ownCmp++
+		if x.Rel != y.Rel {
+			w.Fail("C14", fmt.Sprintf("own proposal at (%d,%d): with only the clock shifted by %s its timestamp moved by %s (both clocks are past the previous block's timestamp + increment)", x.H, x.V, b.Shift, b.Shift+time.Duration(y.Rel-x.Rel)), "clock-only-shift-changes-timestamp")
+		}
+	}
 	cl := map[string]int{}
+	if ownCmp > 0 {
+		cl["own_timestamps_compared_clock_only"] = ownCmp
+	}
 	for k, v := range a.Classes {
 		cl[k] = v
 	}
